@@ -115,6 +115,20 @@ def _responder(peer, req):
     return net.Reply(net.http_response(200, b"ok"))
 
 
+def _requests_since(n, pos):
+    """[(cid, Request)] that arrived after log position pos, in ARRIVAL order (Net.requests() is ordered by
+    connection, which is not chronological once an earlier connection is reused)"""
+    return [(e[1], n.peers[e[1]].requests[e[2] - 1]) for e in n.log[pos:] if e[0] == "REQ"]
+
+
+def _carrier(n, reqs):
+    """dial address of the connection that carried the (last) request: connection id -> Net.dials"""
+    if not reqs:
+        return []
+    a = n.dials[reqs[-1][0] - 1][1]
+    return [_host_cps(a[0]), int(a[1]) if isinstance(a[1], int) else -1]
+
+
 def _host_cps(h):
     return cps(h) if isinstance(h, str) else cps(repr(h))
 
@@ -123,7 +137,7 @@ def drive(url, px, variants=()):
     """One observation: GET `url` (then each variant) through one fresh manager over one fresh network."""
     import urllib3
     obs = {"kind": "wire", "s": cps(url), "px": cps(PROXY_URL) if px == "proxy" else NONE, "k": "sent", "dials": [],
-           "req": [], "snis": [], "vars": [], "exp": [], "fault": False, "u3": False}
+           "req": [], "snis": [], "vars": [], "exp": [], "fault": False, "u3": False, "carrier": []}
     with warnings.catch_warnings():
         warnings.simplefilter("ignore")
         with net.Net(_responder) as n:
@@ -132,7 +146,7 @@ def drive(url, px, variants=()):
             pm = urllib3.PoolManager(**kw) if px == "none" else urllib3.ProxyManager(PROXY_URL, **kw)
 
             def one(u):
-                d0, r0, s0 = len(n.dials), len(n.requests()), len(ctx.calls)
+                d0, r0, s0 = len(n.dials), len(n.log), len(ctx.calls)
                 u3 = False
                 try:
                     resp = pm.request("GET", u, redirect=False)
@@ -140,15 +154,15 @@ def drive(url, px, variants=()):
                 except Exception as ex:
                     k = type(ex).__name__
                     u3 = isinstance(ex, urllib3.exceptions.HTTPError)
-                reqs = n.requests()[r0:]
-                return {"k": k, "u3": u3, "dials": [[_host_cps(a[0]), int(a[1]) if isinstance(a[1], int) else -1] for _c, a, *_ in n.dials[d0:]],
+                reqs = _requests_since(n, r0)
+                return {"k": k, "u3": u3, "carrier": _carrier(n, reqs), "dials": [[_host_cps(a[0]), int(a[1]) if isinstance(a[1], int) else -1] for _c, a, *_ in n.dials[d0:]],
                         "req": [{"m": q.method, "t": cps(q.target), "hosts": [cps(v) for kk, v in q.headers if kk.lower() == "host"]}
                                 for _c, q in reqs],
                         "raw": b"\x00".join(q.raw for _c, q in reqs[-1:]),
                         "snis": [NONE if h is None else cps(h) for h in ctx.calls[s0:]]}
 
             first = one(url)
-            obs.update(k=first["k"], u3=first["u3"], dials=first["dials"], req=first["req"], snis=first["snis"])
+            obs.update(k=first["k"], u3=first["u3"], carrier=first["carrier"], dials=first["dials"], req=first["req"], snis=first["snis"])
             try:
                 pool0 = pm.connection_from_url(url)
             except Exception:
@@ -165,11 +179,6 @@ def drive(url, px, variants=()):
     return obs
 
 
-def _responder_close(peer, req):
-    """history runs: every reply closes the connection, so every request of a history dials anew"""
-    if req.method == "CONNECT":
-        return net.Reply(b"HTTP/1.1 200 Connection established\r\n\r\n")
-    return net.Reply(net.http_response(200, b"ok", keepalive=False), close=True)
 
 
 MGR_HEADERS = {"X-Mgr": "1"}
@@ -177,14 +186,19 @@ REQ_HEADERS = {"X-Req": "1"}
 
 
 def drive_history(job):
-    """Consecutive requests through ONE manager.  job = (px, mgrhdr, [(url, perreq, fail), ...]).
+    """Consecutive requests through ONE manager.  job = (px, mgrhdr, [(url, perreq, fail, close), ...]).
     fail: name resolution fails for the dial name - create_connection raises socket.gaierror for the first
     name this request dials, and only for that name (any other spelling "resolves")."""
     import socket
 
     import urllib3
     px, mgrhdr, steps = job
-    cur = {"fail": False, "name": None}
+    cur = {"fail": False, "name": None, "close": True}
+
+    def responder(peer, req):     # the server closes after the reply, or keeps the connection alive (per step)
+        if req.method == "CONNECT":
+            return net.Reply(b"HTTP/1.1 200 Connection established\r\n\r\n")
+        return net.Reply(net.http_response(200, b"ok", keepalive=not cur["close"]), close=cur["close"])
 
     def script(cid, address):
         if cur["fail"]:
@@ -197,16 +211,16 @@ def drive_history(job):
     out = {"kind": "hist", "px": cps(PROXY_URL) if px == "proxy" else NONE, "steps": [], "hdr0": [], "hdr1": []}
     with warnings.catch_warnings():
         warnings.simplefilter("ignore")
-        with net.Net(_responder_close, scripts=script) as n:
+        with net.Net(responder, scripts=script) as n:
             ctx = RecordingContext()
             kw = dict(retries=False, timeout=5, ssl_context=ctx, cert_reqs="CERT_NONE")
             if mgrhdr:
                 kw["headers"] = dict(MGR_HEADERS)
             pm = urllib3.PoolManager(**kw) if px == "none" else urllib3.ProxyManager(PROXY_URL, **kw)
             out["hdr0"] = [[cps(str(k)), cps(str(v))] for k, v in pm.headers.items()]
-            for url, perreq, fail in steps:
-                cur["fail"], cur["name"] = bool(fail), None
-                d0, r0, s0 = len(n.dials), len(n.requests()), len(ctx.calls)
+            for url, perreq, fail, close in steps:
+                cur["fail"], cur["name"], cur["close"] = bool(fail), None, bool(close)
+                d0, r0, s0 = len(n.dials), len(n.log), len(ctx.calls)
                 u3 = False
                 try:
                     resp = pm.request("GET", url, redirect=False, **({"headers": dict(REQ_HEADERS)} if perreq else {}))
@@ -214,9 +228,10 @@ def drive_history(job):
                 except Exception as ex:
                     k = type(ex).__name__
                     u3 = isinstance(ex, urllib3.exceptions.HTTPError)
-                reqs = n.requests()[r0:]
+                reqs = _requests_since(n, r0)
                 out["steps"].append({
-                    "s": cps(url), "px": out["px"], "k": k, "u3": u3, "fault": bool(fail), "vars": [], "exp": [],
+                    "s": cps(url), "px": out["px"], "k": k, "u3": u3, "fault": bool(fail and n.dials[d0:]), "vars": [], "exp": [],
+                    "closed": bool(close), "carrier": _carrier(n, reqs),
                     "dials": [[_host_cps(a[0]), int(a[1]) if isinstance(a[1], int) else -1] for _c, a, *_ in n.dials[d0:]],
                     "req": [{"m": q.method, "t": cps(q.target), "hosts": [cps(v) for kk, v in q.headers if kk.lower() == "host"]}
                             for _c, q in reqs],
@@ -276,7 +291,9 @@ def judge(traces, res):
 def describe(ob):
     def t(x):
         return None if x == NONE else text(x)
+    car = ob.get("carrier") or []
     return (f"GET {text(ob['s'])!r} via {t(ob['px']) or 'no proxy'} -> {ob['k']}; dial={[(text(h), p) for h, p in ob['dials']]} "
+            f"carried by the connection dialled to {(text(car[0]), car[1]) if car else None} "
             f"requests={[(q['m'], text(q['t']), [text(h) for h in q['hosts']]) for q in ob['req']]} server_hostname={[t(x) for x in ob['snis']]} "
             f"variants={[(text(v['s']), v['k'], 'same pool' if v['samepool'] else 'OTHER POOL', 'same bytes' if v['samebytes'] else 'OTHER BYTES') for v in ob['vars']]}")
 
@@ -295,7 +312,7 @@ def guarded_drive(jobs, res):
     for i in dnr:
         url, px, variants = jobs[i]
         obs[i] = {"kind": "wire", "s": cps(url), "px": cps(PROXY_URL) if px == "proxy" else NONE, "k": "did-not-return",
-                  "dials": [], "req": [], "snis": [], "vars": [], "exp": [], "fault": False, "u3": False,
+                  "dials": [], "req": [], "snis": [], "vars": [], "exp": [], "fault": False, "u3": False, "carrier": [],
                   "varsrc": [cps(v) for v in variants]}
     res["dnr"] = res.get("dnr", 0) + len(dnr)
     res["skipped"] = res.get("skipped", 0) + len(info["skipped"])
@@ -420,6 +437,10 @@ CONSTANTS Alphabet <- HTrAlphabet
   MaxReq = {n}
   Deviations <- {dev}
   ProxyText <- MCProxyText
+  PxChoices <- MCPxChoices
+  PerReqs <- MCPerReqs
+  Fails <- MCFails
+  Closes <- MCCloses
   HLevel = {lvl}
   HShard = {sh}
   HShards = {shs}
@@ -428,9 +449,10 @@ ACTION_CONSTRAINT ShardFirst
 CHECK_DEADLOCK FALSE
 """
 HIST_INVS = ["OriginsDefined", "WireHostEveryRequest", "WireDialHostEveryAttempt", "EveryRequestConforms",
-             "DefaultHeadersUnchanged", "FaultSurfaces"]
+             "DefaultHeadersUnchanged", "EquivalentReuse", "FaultSurfaces"]
 # named deviation -> the invariant TLC must refute when the deviation is enabled
-HIST_DEVIATIONS = {"DevMutated": "WireHostEveryRequest", "DevRedial": "WireDialHostEveryAttempt"}
+HIST_DEVIATIONS = {"DevMutated": ("WireHostEveryRequest", 1), "DevRedial": ("WireDialHostEveryAttempt", 1),
+                   "DevKeyDot": ("WireDialHostEveryAttempt", 3)}       # deviation -> (refuted invariant, HLevel)
 
 
 def _hist_stage1(job):
@@ -466,7 +488,7 @@ def _hist_shard(job):
     if r.violated:
         return res
     jobs = [("none" if h["px"] == NONE else "proxy", bool(h["mgrhdr"]),
-             [(text(st["u"]), bool(st["perreq"]), bool(st["fail"])) for st in h["steps"]]) for h in hists]
+             [(text(st["u"]), bool(st["perreq"]), bool(st["fail"]), bool(st["close"])) for st in h["steps"]]) for h in hists]
     import urllib3  # noqa: F401
     obs, dnr, info = guard.guarded_map(drive_history, jobs)
     res["dnr"], res["skipped"], res["budget_s"], res["max_input_cpu_s"] = len(dnr), len(info["skipped"]), info["budget_s"], info["max_input_cpu_s"]
@@ -475,17 +497,17 @@ def _hist_shard(job):
         if i in dnr:
             ob = {"kind": "hist", "px": h["px"], "hdr0": [], "hdr1": [],
                   "steps": [{"s": cps(job_i[2][0][0]), "px": h["px"], "k": "did-not-return", "u3": False, "fault": False, "vars": [],
-                             "exp": [], "dials": [], "req": [], "snis": []}]}
+                             "exp": [], "dials": [], "req": [], "snis": [], "carrier": [], "closed": True}]}
         if ob is None:
             continue
-        ob["job"] = [job_i[0], job_i[1], [[cps(u), p, f] for u, p, f in job_i[2]]]
+        ob["job"] = [job_i[0], job_i[1], [[cps(u), p, f, c] for u, p, f, c in job_i[2]]]
         res["evaluations"] += len(job_i[2])
         traces.append(ob)
         expected.append(h["exp"])
     for clauses, ob, exp in zip(judge_hist(traces, res), traces, expected):
         # the model's predicted observations (outcome class, every dial attempt): a difference the Rules accept is drift
-        got = [[st["k"], st["dials"]] for st in ob["steps"]]
-        want = [[e["k"], e["dials"]] for e in exp]
+        got = [[st["k"], st["dials"], st["carrier"]] for st in ob["steps"]]
+        want = [[e["k"], e["dials"], e["carrier"]] for e in exp]
         if not clauses and got != want:
             res["ndrift"] += 1
             if len(res["drift"]) < 5:
@@ -570,8 +592,10 @@ def run(rep):
     tally, seen_bad = {}, {}
     with mp.Pool(JOBS) as pool:
         # the refutations are design-level facts: the small space suffices (and -continue prints every counter-example)
-        dev_async = pool.map_async(_hist_stage1, [(dev, 2, 1) for dev in HIST_DEVIATIONS], chunksize=1)
-        hist_async = pool.map_async(_hist_shard, [(hn, hlvl, sh, hshs) for sh in range(hshs)], chunksize=1)
+        dev_async = pool.map_async(_hist_stage1, [(dev, 2, lv) for dev, (_inv, lv) in HIST_DEVIATIONS.items()], chunksize=1)
+        # + the variant class (HLevel 3): URLs differing only in a trailing dot / case / default port / userinfo+fragment
+        vn = 2 if quick else 3
+        hist_async = pool.map_async(_hist_shard, [(vn, 3, 0, 1)] + [(hn, hlvl, sh, hshs) for sh in range(hshs)], chunksize=1)
         rnd_async = pool.map_async(_random_shard, [(rep.seed * 9176 + 31 * i + 7, per) for i in range(nrand // per)])
         outs = pool.map(_shape_shard, [(lvl, sh, shs) for sh in range(shs)], chunksize=1)
         rnd = rnd_async.get()
@@ -582,28 +606,30 @@ def run(rep):
         for v in o["violated"]:
             rep.violation("Stage1:" + v, f"TLC: invariant {v} violated in spec/UrlHistory.tla with no deviation enabled", {"kind": "stage1"})
     for d in devs:
-        want = HIST_DEVIATIONS[d["dev"]]
+        want = HIST_DEVIATIONS[d["dev"]][0]
         if d["error"] or want not in d["violated"]:
             raise tlc.MachineryError(f"UrlHistory: deviation {d['dev']} enabled but TLC did not refute {want} (got {d['violated']}, {d['error']}) - vacuous Rules")
-        rep.stage1.append({"run": f"MC_UrlHistory MaxReq=2 HLevel=1 deviation {d['dev']} (expected refutation)",
+        rep.stage1.append({"run": f"MC_UrlHistory MaxReq=2 HLevel={HIST_DEVIATIONS[d['dev']][1]} deviation {d['dev']} (expected refutation)",
                            "distinct_states": d["distinct"], "states_generated": d["generated"], "depth": 3,
                            "wall_s": round(d["wall"], 1), "refuted_invariant": want})
     norig = 3 if hlvl == 1 else 6
     nhist = sum(o["emitted"] for o in houts)
-    if not rep.violations and nhist != 4 * (norig * 4) ** hn:
-        raise tlc.MachineryError(f"history emission incomplete: {nhist} histories, expected {4 * (norig * 4) ** hn}")
+    nwant = 4 * (norig * 4) ** hn + 2 * (7 * 2) ** vn
+    if not rep.violations and nhist != nwant:
+        raise tlc.MachineryError(f"history emission incomplete: {nhist} histories, expected {nwant}")
     if not rep.violations and sum(o["traces"] + o.get("skipped", 0) for o in houts) != nhist:
         raise tlc.MachineryError(f"{nhist} histories emitted but {sum(o['traces'] for o in houts)} validated")
     rep.states += sum(o["distinct"] for o in houts)
     rep.transitions += sum(o["generated"] for o in houts)
-    rep.stage1.append({"run": f"MC_UrlHistory MaxReq={hn} HLevel={hlvl} no deviation ({hshs} shards)", "distinct_states": sum(o["distinct"] for o in houts),
+    rep.stage1.append({"run": f"MC_UrlHistory MaxReq={hn} HLevel={hlvl} ({hshs} shards) + variant class MaxReq={vn} HLevel=3, no deviation", "distinct_states": sum(o["distinct"] for o in houts),
                        "states_generated": sum(o["generated"] for o in houts), "depth": hn + 1,
                        "wall_s": round(max(o["wall"] for o in houts), 1), "invariants": HIST_INVS,
                        "histories_emitted": nhist, "histories_replayed_and_validated": sum(o["traces"] for o in houts)})
     rep.extra["history_class"] = {"histories": nhist, "requests": sum(o["evaluations"] for o in houts),
                                   "managers": ["PoolManager", "ProxyManager(http proxy)"], "default_headers": ["none", "non-empty"],
                                   "per_request_headers": [False, True], "fault": "socket.gaierror for the dial name",
-                                  "deviations_refuted_by_TLC": {d["dev"]: HIST_DEVIATIONS[d["dev"]] for d in devs}}
+                                  "deviations_refuted_by_TLC": {d["dev"]: HIST_DEVIATIONS[d["dev"]][0] for d in devs},
+                                  "variant_class": f"{2 * 14 ** vn} histories of {vn} URLs differing only in trailing dot / case / default port / userinfo+fragment, keep-alive or server close"}
     nshapes = sum(o["distinct"] for o in outs)
     for o in outs:
         for v in o["violated"]:
@@ -661,7 +687,7 @@ def replay(rep, path):
     rep.nontrivial.update({1, 2})
     rep.states = rep.transitions = 1
     if case.get("kind") == "hist":
-        job = (case["job"][0], case["job"][1], [(text(u), p, f) for u, p, f in case["job"][2]])
+        job = (case["job"][0], case["job"][1], [(text(x[0]), x[1], x[2], x[3] if len(x) > 3 else True) for x in case["job"][2]])
         obs, dnr, _ = guard.guarded_map(drive_history, [job])
         if dnr:
             rep.violation("Wire:DidNotReturn", "the history did not return within the CPU-time budget", case)
